@@ -217,6 +217,10 @@ def oracle(d, rc):
                 else:
                     notes["direct apply of a leader-REJECTED vector: error (%s) with %s: %s" % (et, sb, name_of(vid))] += 1
             hist["sandbox:" + (sb or "?")] += 1
+        elif k[0] == "G":
+            hist["pipeline:" + ("closed" if f.get("closed") == "true" else "timeout" if f.get("timeout") == "true" else "ok")] += 1
+            if f.get("closed") != "true" and f.get("timeout") != "true" and f.get("pipeline") != f.get("replies"):
+                notes["pipelined SET group answered with a different number of replies than commands"] += 1
         elif k[0] == "P":
             hist["pair:" + f.get("pair", "?")] += 1
             if f.get("pair") != "eq":
